@@ -244,7 +244,7 @@ def op_transform(ctx, m, step, sig):
 def case_restrict(draw, tier):
     desc = draw(gm.mesh(max_cells=24, max_cells_3d=10, order2=True, curved=True))
     nc = len(desc['t'][0])
-    tg = draw(gt.tags(nc, pools=('boundary', 'interior', 'all')))
+    tg = draw(gt.tags(nc, pools=('boundary', 'interior', 'all'), repeats=True))
     step = dict(op='restrict', picks=draw(st.lists(st.integers(0, 10**4), min_size=1, max_size=nc)),
                 sorted=draw(st.booleans()), mode=draw(st.sampled_from(['restrict', 'restrict', 'remove'])),
                 mapping=draw(st.booleans()), skip_b=draw(st.integers(0, 5)) == 0, skip_s=draw(st.integers(0, 5)) == 0,
